@@ -1513,3 +1513,15 @@ Proof.
 Qed.
 Theorem powmod_zero_modulus p a n : 1 <= n -> powmod p a n (Some []) = ZeroDiv.
 Proof. intros H. unfold powmod. destruct (Z.eqb_spec n 0); [lia|]. destruct (Z.ltb_spec n 0); [lia|]. reflexivity. Qed.
+
+(** negative exponents, as coded: invert first, then the positive power *)
+Theorem powmod_neg_eq p a n b : 1 <= n ->
+  powmod p a (- n) (Some b) = bind (invert p a b) (fun a' => powmod p a' n (Some b)).
+Proof.
+  intros H. unfold powmod.
+  destruct (Z.eqb_spec (- n) 0); [lia|]. destruct (Z.ltb_spec (- n) 0); [|lia].
+  destruct (Z.eqb_spec n 0); [lia|]. destruct (Z.ltb_spec n 0); [lia|].
+  rewrite Z.opp_involutive. reflexivity.
+Qed.
+Theorem powmod_neg_no_modulus p a n : n < 0 -> powmod p a n None = ValueErr.
+Proof. intros H. unfold powmod. destruct (Z.eqb_spec n 0); [lia|]. destruct (Z.ltb_spec n 0); [reflexivity|lia]. Qed.
